@@ -284,6 +284,20 @@ def leaf_atomic_rule(res, fx):
                 res.ok(r, nm)
 
 
+def cond_paths(cond, bool_defs, depth=0):
+    """access paths mentioned by a condition, looking through Boolean locals defined earlier; '<==>' marks an equality comparison"""
+    out = []
+    for x in walk(cond):
+        if x.get('k') in ('mem', 'ref'):
+            p = path_of(x)
+            out.append(p)
+            if x.get('k') == 'ref' and x.get('n') in bool_defs and depth < 3:
+                out += cond_paths(bool_defs[x['n']], bool_defs, depth + 1)
+        if x.get('k') in ('bin', 'call') and x.get('op') == '==':
+            out.append('<==>')
+    return out
+
+
 def run(src, tier, seed):
     fx = Facts(src)
     res = Result('C19')
@@ -326,24 +340,48 @@ def run(src, tier, seed):
     # ---- names introduced inside a command are registered only after the command was accepted
     r = res.rule('names-committed-after-acceptance', 'Interpret registers :named terms (MainSolver::tryAddTermNameFor) only in execute(), after interp() returned, under the test that no '
                  'error response was issued by that command; the error counter is incremented by every error response; the pending list is emptied before each command', floor=4)
-    callers = sorted({f['name'] for f in fx.F.values() if f['name'].startswith(INTERP) for n in fwalk(f) if is_call(n, 'tryAddTermNameFor') and not n.get('as')})
-    if callers == ['opensmt::Interpret::execute']:
-        res.ok(r, 'tryAddTermNameFor is called from Interpret::execute only')
-    elif not callers:
+    # Interpret methods that (transitively, inside the class) register names, and the methods reachable from interp() while a command is interpreted
+    imeth = {f['id']: f for f in fx.F.values() if f['name'].startswith(INTERP) and f.get('body')}
+    direct = {i for i, f in imeth.items() if any(is_call(n, 'tryAddTermNameFor') and not n.get('as') for n in fwalk(f))}
+    edges = {i: {t for n in fwalk(f) if n.get('k') == 'call' and not n.get('as') for t in fx.targets(n) if t in imeth} for i, f in imeth.items()}
+    committers = set(direct)
+    changed = True
+    while changed:
+        changed = False
+        for i, ts in edges.items():
+            if i not in committers and ts & committers:
+                committers.add(i); changed = True
+    interp_ids = [i for i, f in imeth.items() if f['name'] == 'opensmt::Interpret::interp']
+    if not interp_ids:
+        raise AnalysisBroken('Interpret::interp vanished')
+    reach = set(interp_ids)
+    st = list(interp_ids)
+    while st:
+        for t in edges.get(st.pop(), ()):
+            if t not in reach:
+                reach.add(t); st.append(t)
+    if not direct:
         raise AnalysisBroken('no Interpret method registers term names any more: the naming protocol changed')
+    inside = sorted(imeth[i]['name'] for i in direct & reach)
+    if not inside:
+        res.ok(r, 'tryAddTermNameFor is called from %s only, none of which is reachable from interp()' % sorted(imeth[i]['name'].split('::')[-1] for i in direct))
     else:
-        res.bad(r, 'name-registered-in-command:%s' % ','.join(c.split('::')[-1] for c in callers if not c.endswith('::execute')), fx.loc(fx.func(callers[0])),
-                'term names are registered from %s, i.e. while the command is still being interpreted: a command rejected afterwards leaves the name behind' % callers)
+        res.bad(r, 'name-registered-in-command:%s' % ','.join(c.split('::')[-1] for c in inside), fx.loc(fx.func(inside[0])),
+                'term names are registered from %s, i.e. while the command is still being interpreted: a command rejected afterwards leaves the name behind' % inside)
+
+    def is_commit(n):
+        return n.get('k') == 'call' and not n.get('as') and (is_call(n, 'tryAddTermNameFor') or any(t in committers for t in fx.targets(n)))
     ex = fx.func('opensmt::Interpret::execute')
     nodes = list(fwalk(ex))
     i_interp = next((i for i, n in enumerate(nodes) if is_call(n, 'interp')), None)
-    i_commit = next((i for i, n in enumerate(nodes) if is_call(n, 'tryAddTermNameFor')), None)
+    i_commit = next((i for i, n in enumerate(nodes) if is_commit(n)), None)
     snap = [n for n in nodes if n.get('k') == 'decl' and path_of(n.get('init')) == 'this.errorCount']
+    bool_defs = {n['n']: n['init'] for n in nodes if n.get('k') == 'decl' and n.get('init') is not None and 'bool' in (n.get('ct') or n.get('t') or '')}
     guarded = False
     for n in walk(ex['body']):
-        if n.get('k') == 'if' and not n.get('as') and any(is_call(x, 'tryAddTermNameFor') for x in walk(n['then'])):
-            cs = [path_of(x) for x in walk(n['cond']) if x.get('k') in ('mem', 'ref')]
-            guarded = 'this.errorCount' in cs and snap and snap[0]['n'] in cs and any(x.get('op') == '==' for x in walk(n['cond']) if x.get('k') in ('bin', 'call'))
+        if n.get('k') == 'if' and not n.get('as') and any(is_commit(x) for x in walk(n['then'])):
+            cs = cond_paths(n['cond'], bool_defs)
+            guarded = 'this.errorCount' in cs and snap and snap[0]['n'] in cs and '<==>' in cs
     clears_before = any(is_call(n, 'clear', 'this.pendingTermNames') for n in nodes[:i_interp or 0])
     if i_interp is not None and i_commit is not None and i_interp < i_commit and guarded and clears_before and \
             snap and nodes.index(snap[0]) < i_interp:
